@@ -22,11 +22,14 @@ func init() {
 		{"C02", "attachment-offset-convention", "C02.d", "go/mcap/reader.go", "r.rs.Seek(int64(offset+9), io.SeekStart)", "r.rs.Seek(int64(offset+8), io.SeekStart)", "seek to index offset + 9"},
 		{"C02", "slot-aliases-read-buffer", "C02.o", ix, "copy(chunkSlot.buf, parsedChunk.Records)", "chunkSlot.buf = parsedChunk.Records[:bufSize]", "chunkSlot.buf"},
 		{"C02", "conditional-seek", "C02.k", ix, "\terr := it.seekTo(chunkIndex.ChunkStartOffset)\n\tif err != nil {\n\t\treturn err\n\t}", "\tvar err error\n\tif chunkIndex.ChunkStartOffset != 0 {\n\t\terr = it.seekTo(chunkIndex.ChunkStartOffset)\n\t\tif err != nil {\n\t\t\treturn err\n\t\t}\n\t}", "read of the shared stream"},
+		{"C02", "file-order-chunks-by-time", "C02.f", ix, "return it.chunkIndexes[i].ChunkStartOffset < it.chunkIndexes[j].ChunkStartOffset\n\t\t\t\t})\n\t\t\tcase LogTimeOrder:", "return it.chunkIndexes[i].MessageStartTime < it.chunkIndexes[j].MessageStartTime\n\t\t\t\t})\n\t\t\tcase LogTimeOrder:", "chunk order in file order"},
 		// C03
 		{"C03", "unstable-sort", "C03.a", ix, "sort.SliceStable(unreadMessageIndexes, func(i, j int) bool {\n\t\t\t\treturn unreadMessageIndexes[i].timestamp < unreadMessageIndexes[j].timestamp", "sort.Slice(unreadMessageIndexes, func(i, j int) bool {\n\t\t\t\treturn unreadMessageIndexes[i].timestamp < unreadMessageIndexes[j].timestamp", "sort of the message queue"}, // (S)
 		{"C03", "non-strict-comparator", "C03.b", ix, "return unreadMessageIndexes[i].timestamp > unreadMessageIndexes[j].timestamp", "return unreadMessageIndexes[i].timestamp >= unreadMessageIndexes[j].timestamp", "comparator"},
 		{"C03", "reverse-trigger-wrong-key", "C03.c", ix, "it.order == ReverseLogTimeOrder && chunkIndex.MessageEndTime > messageIndex.timestamp", "it.order == ReverseLogTimeOrder && chunkIndex.MessageStartTime > messageIndex.timestamp", "chunk order key vs load trigger (order 2)"},
 		{"C03", "reverse-after-sort", "C03.d", ix, "\t\tslices.Reverse(it.messageIndexes[startIdx:])\n\t\tif sortingRequired {\n\t\t\tsort.SliceStable(unreadMessageIndexes, func(i, j int) bool {\n\t\t\t\treturn unreadMessageIndexes[i].timestamp > unreadMessageIndexes[j].timestamp\n\t\t\t})\n\t\t}", "\t\tif sortingRequired {\n\t\t\tsort.SliceStable(unreadMessageIndexes, func(i, j int) bool {\n\t\t\t\treturn unreadMessageIndexes[i].timestamp > unreadMessageIndexes[j].timestamp\n\t\t\t})\n\t\t}\n\t\tslices.Reverse(it.messageIndexes[startIdx:])", "reverse of the new segment"},
+		{"C03", "yield-from-last-slot", "C03.g", ix, "chunkSlot := &it.chunkSlots[messageIndex.chunkSlotIndex]", "chunkSlot := &it.chunkSlots[len(it.chunkSlots)-1]", "bytes of the yielded message"},
+		{"C03", "trigger-looks-at-queue-tail", "C03.g", ix, "messageIndex := it.messageIndexes[it.curMessageIndex]\n\t\t\tif (it.order == LogTimeOrder", "messageIndex := it.messageIndexes[len(it.messageIndexes)-1]\n\t\t\tif (it.order == LogTimeOrder", "load trigger compares the entry at the cursor"},
 		// C04
 		{"C04", "inclusive-end", "C04.a", ux, "beforeEnd(msg.LogTime, it.end)", "msg.LogTime <= it.end", "window predicate"},
 		{"C04", "pruning-too-strong", "C04.b", ix, "idx.MessageEndTime >= it.start", "idx.MessageEndTime > it.start", "chunk pruning condition"}, // (S)
@@ -80,6 +83,7 @@ func init() {
 		{"C18", "field-length-guard-removed", "C18.b", "go/ros/bag2mcap.go", "\t\tif uint64(fieldlen) > uint64(len(header)-offset) {\n\t\t\treturn nil, fmt.Errorf(\"field length %d exceeds header\", fieldlen)\n\t\t}\n\t\tfield := header[offset : offset+int(fieldlen)]", "\t\tfield := header[offset : offset+int(fieldlen)]", "ros.extractHeaderValue"},
 		{"C18", "rows-err-dropped", "C18.c", "go/ros/ros2db3_to_mcap.go", "\tif err := rows.Err(); err != nil {\n\t\treturn nil, err\n\t}\n\treturn topics, nil", "\treturn topics, nil", "rows.Err after rows.Next loop"},
 		{"C18", "schema-name-from-deleted-key", "C18.u", "go/ros/bag2mcap.go", "\t\t\t\t\tName:     typ,\n", "\t\t\t\t\tName:     connectionDataHeader[\"type\"],\n", "lookups of"},
+		{"C18", "qualify-with-stored-package", "C18.q", "go/ros/ros2db3_to_mcap.go", "qualifiedType := fieldToQualifiedROSType(fieldType, parentPackage)", "qualifiedType := fieldToQualifiedROSType(fieldType, subdefinition.parentPackage)", "package used to qualify"},
 		// C19
 		{"C19", "cycle-guard-removed", "C19.a", "go/ros/ros1msg/ros1msg_parser.go", "\t\t\tif resolving[dependencyName] {\n\t\t\t\treturn nil, fmt.Errorf(\"type %s refers to itself\", dependencyName)\n\t\t\t}\n", "", "recursive call"},
 		{"C19", "bracket-order-guard-removed", "C19.b", "go/ros/ros1msg/ros1msg_parser.go", "\tif rightBracketIndex < leftBracketIndex {\n\t\treturn false, \"\", 0\n\t}\n", "", "slice s["},
